@@ -622,7 +622,9 @@ func TestPropPayload(t *testing.T) {
 			}
 		}
 		rec.Case(ev.Hash(a.show(), how), nt, strings.SplitN(how, ",", 2)[0], "key="+kp.Kind)
-		rec.MaybeSample(nt, func() any { return map[string]any{"relation": how, "A": json.RawMessage(a.show()), "payload": string(payA)} })
+		rec.MaybeSample(nt, func() any {
+			return map[string]any{"relation": how, "A": json.RawMessage(a.show()), "payload": string(payA)}
+		})
 	})
 }
 
@@ -640,7 +642,7 @@ var recDoc = ev.New("TestPropDocumentKeyOrder", "a generated command step marsha
 
 func permuteYAML(t *rapid.T, n *yaml.Node) {
 	if n.Kind == yaml.MappingNode && len(n.Content) >= 4 {
-		idx := rapid.Permutation(seq(len(n.Content) / 2)).Draw(t, "perm")
+		idx := rapid.Permutation(seq(len(n.Content)/2)).Draw(t, "perm")
 		var c []*yaml.Node
 		for _, i := range idx {
 			c = append(c, n.Content[2*i], n.Content[2*i+1])
